@@ -511,6 +511,15 @@ def _run_endpoint(payload):
 def endpoint_graph(rnd):
     """IRI nodes, plain-string and integer literals (what the endpoint result reader keeps)"""
     T = [t for t in gen.general_graph(rnd, bnodes=False, rich_literals=False, max_nodes=6)]
+    if rnd.random() < .35:
+        # plain strings that differ only in blanks around the text are different values: every store on the way (the local cache of
+        # the endpoint graph is an rdflib Graph) has to keep them apart
+        subs = sorted({s for s, _p, _o in T}, key=str)
+        if subs:
+            n = rnd.choice(subs)
+            w = rnd.choice(["w", "two words", "x1"])
+            for v in rnd.sample([w, w + " ", " " + w, " " + w + " ", w + "  "], rnd.randint(2, 3)):
+                T.append((n, M.EX + "pad", M.lit(v)))
     return T
 
 
